@@ -225,3 +225,26 @@ def varbyte_summary(repo):
             return VarByte(v)
         return it.call_function(fi, args, kwargs, node)
     return {"mingus.midi.midi_track.MidiTrack.int_to_varbyte": f}
+
+
+class AFile:
+    """A file opened for binary reading over known bytes."""
+
+    def __init__(self, data):
+        self.data = bytes(data)
+        self.pos = 0
+
+    def a_method(self, interp, name, args, kwargs, node):
+        if name == "read":
+            n = args[0] if args else None
+            if n is None:
+                out, self.pos = self.data[self.pos:], len(self.data)
+                return out
+            if not isinstance(n, int):
+                raise CannotDecide("read(%r)" % (n,))
+            out = self.data[self.pos:self.pos + n]
+            self.pos += len(out)
+            return out
+        if name == "close":
+            return None
+        return NotImplemented
